@@ -48,7 +48,7 @@ ASSUMPTIONS = [
     "ints inside arrays are below 2^53 (the parser returns float arrays)",
     "bool values and numpy float32 are not generated (written with str(), they cannot come back as the same type)",
 ]
-BOUND = {'quick': '16 x 2000 templates with 1-3 substitutions', 'thorough': '16 x 60000'}
+BOUND = {'quick': '16 x 2000 templates with 1-3 substitutions', 'thorough': '16 x 30000'}
 MIN_CLASS_FRACTION = {'var_float': 0.2, 'array': 0.15, 'array2d': 0.05, 'neg_exp_nodot': 0.01,
                       'nonfinite_value': 0.02, 'array_longer': 0.02, 'occurrence_negative': 0.1,
                       'delims_nonspace': 0.2, 'var_str': 0.05, 'var_int': 0.05}
@@ -909,7 +909,7 @@ def build_case(src):
 # ---------------------------------------------------------------------------------------------
 
 def units(tier, seed):
-    per = 2000 if tier == 'quick' else 60000
+    per = 2000 if tier == 'quick' else 30000
     return [{'kind': 'random', 'n': per, 'seed': core.shard_seed(seed, ID, i)} for i in range(16)]
 
 
